@@ -34,6 +34,13 @@ Record txt_rules := TR {
   tr_min : option str; tr_max : option str;
   tr_xmin : option bool; tr_xmax : option bool }.
 
+(* TimestampField.Rules: bounds as whole seconds (the harness refuses others) *)
+Record ts_rules := TSR {
+  tsr_min : option Z; tsr_max : option Z;
+  tsr_xmin : option bool; tsr_xmax : option bool }.
+(* ObjectField.Rules *)
+Record obj_rules := OBR { obr_min : option N; obr_max : option N }.
+
 (* list rules (j5.list.v1.*Rules): the message is copied as a whole, so only
    its identity matters; the payload is (filterable, sortable, searchable,
    default_sort, default_filters) as the generator set them *)
@@ -46,9 +53,11 @@ Inductive ekey := EPrimary (b : bool) | EForeign (pkg ent : str).
 Record entity_key := EK { ek_type : option ekey; ek_tenant : option str }.
 
 (* the enum a field refers to, as declared in the same j5s file:
-   effective value-name prefix and the option names in order (numbers 1..n;
-   number 0 is the implicit <prefix>UNSPECIFIED) *)
-Record enum_env := EE { ee_prefix : str; ee_options : list str }.
+   effective value-name prefix, the explicit first option standing for value 0
+   (a first option whose name ends in UNSPECIFIED; None: value 0 is the implicit
+   <prefix>UNSPECIFIED, which no rule can name) and the other option names in
+   order (numbers 1..n) *)
+Record enum_env := EE { ee_prefix : str; ee_zero : option str; ee_options : list str }.
 
 Inductive fty :=
 | TInt (k : ikind) (r : option int_rules) (l : option lpay)
@@ -57,13 +66,13 @@ Inductive fty :=
 | TBool (r : option (option bool)) (l : option lpay)     (* rules present; const *)
 | TEnum (r : option enum_rules) (l : option lpay)
 | TKey (f : option kfmt) (e : option entity_key) (l : option lpay)
-| TFloat (f64 : bool) (l : option lpay)
+| TFloat (f64 : bool) (rules : bool) (l : option lpay)   (* FloatField.rules present (whatever they say) *)
 | TDate (r : option txt_rules) (l : option lpay)
 | TDecimal (r : option txt_rules) (l : option lpay)
-| TTimestamp (l : option lpay)
+| TTimestamp (r : option ts_rules) (l : option lpay)
 | TAny (only_defined : bool) (types : list str) (l : option lpay)
-| TObject (flatten : bool)
-| TOneof (l : option lpay).
+| TObject (flatten : bool) (r : option obj_rules)
+| TOneof (rules : bool) (l : option lpay).              (* OneofField.Rules is an empty message: present or not *)
 
 Inductive pty :=
 | PSingle (t : fty)
@@ -88,7 +97,8 @@ Inductive tyc :=
 | CEnum (defined_only : bool) (cin cnotin : list Z)
 | CRep (min max : option N) (uniq : option bool) (items : option tyc)
 | CMap (min max : option N) (values : option tyc)
-| CTimestamp
+| CTimestamp (ub : ubound) (lb : lbound)     (* seconds *)
+| CEmpty                  (* a FieldConstraints without a type, as item / value constraint *)
 | COther.                 (* anything else found in a real descriptor *)
 
 Record constraint := C { c_req : bool; c_ty : option tyc }.
@@ -121,6 +131,7 @@ Inductive pkind :=
 
 Record fout := FO {
   fo_json : str;             (* json_name *)
+  fo_name : str;             (* the proto field name *)
   fo_number : N;
   fo_kind : pkind;
   fo_rep : bool;             (* LABEL_REPEATED *)
